@@ -90,6 +90,13 @@ func ReplayWorld(tf *TraceFile, keepLog bool, until int) (w *World, herr string)
 }
 
 func (w *World) Result(idx int) *WorldResult {
+	if len(w.Samples) == 0 {
+		pick := map[string]int{}
+		for _, k := range []string{"actions", "delivered", "crashes", "restarts", "elections-won", "leader-commit-advances", "applied", "readys-sync", "readys-async", "confchanges-applied", "snap-restored", "reads-served"} {
+			pick[k] = w.Stats[k]
+		}
+		w.Samples = append(w.Samples, map[string]any{"world_summary": pick, "digest": w.Digest()[:16], "nodes": len(w.ids), "durable_membership": w.Cfg.Durable})
+	}
 	return &WorldResult{Idx: idx, Seed: w.Cfg.Seed, Profile: w.Cfg.Prof.Name, Viol: w.Viol, Stats: w.Stats, Digest: w.Digest(), Sig: w.sig,
 		Inconclusive: w.Inconclusive, Steps: w.step, Samples: w.Samples}
 }
